@@ -173,9 +173,23 @@ def cycles(ctx, bodies):
         loops = cfg.loops()
         covered = set()
         n = 0
+        view = None
         for h, blocks in sorted(loops.items()):
             covered |= blocks
             variant, detail = classify_loop(ctx, b, cfg, E, h, blocks)
+            if variant == "unclassified" and b.promoted is None and b.kind in ("Fn", "AssocFn", "Closure") and not getattr(b, "is_inlined", False):
+                # the driving `next()` / cursor move may sit in a helper: look again with the
+                # crate-local helpers inlined (original blocks keep their indices in the view)
+                try:
+                    if view is None:
+                        view = ctx.inl(b, tag="all")
+                    vcfg = cfg_of(view)
+                    if h in vcfg.loops():
+                        v2, d2 = classify_loop(ctx, view, vcfg, ctx.expr(view), h, vcfg.loops()[h])
+                        if v2 != "unclassified":
+                            variant, detail = v2, d2
+                except Exception:       # noqa: BLE001
+                    pass
             n += 1
             out.append({"key": "%s|loop|%s|%s" % ((b.span or {}).get("file"), variant, detail), "body": b, "header": h, "blocks": blocks, "variant": variant, "detail": detail})
         for comp in cfg.sccs():
@@ -227,6 +241,26 @@ def classify_loop(ctx, b, cfg, E, h, blocks):
     moves = {x for x in blocks if b.blocks[x]["term"] and b.blocks[x]["term"]["k"] == "call"
              and re.search(r"tree_sitter::TreeCursor::<'cursor>::goto_(first_child|next_sibling|parent)$", callee_name(b.blocks[x]["term"]))}
     if moves:
+        # a one-shot flag (`if !self.started { self.started = true; .. }`) is progress too: that path
+        # can be taken once, the flag is never cleared in the loop
+        oneshot = set()
+        for x in blocks:
+            for s in b.blocks[x]["stmts"]:
+                if s["k"] == "assign" and s["lhs"]["p"] and s["rv"]["k"] == "use" and isinstance(s["rv"]["op"].get("k"), dict) \
+                        and s["rv"]["op"]["k"].get("ty") == "bool" and s["rv"]["op"]["k"].get("int") == 1:
+                    flag_txt = render(E.place(s["lhs"]), 200)
+                    cleared = any(s2["k"] == "assign" and s2["lhs"]["p"] and render(E.place(s2["lhs"]), 200) == flag_txt and s2 is not s
+                                  and not (isinstance(s2["rv"].get("op", {}).get("k"), dict) and s2["rv"]["op"]["k"].get("int") == 1)
+                                  for y in blocks for s2 in b.blocks[y]["stmts"])
+                    if cleared:
+                        continue
+                    for y in blocks:
+                        tt = b.blocks[y]["term"]
+                        if tt and tt["k"] == "switch" and render(E.operand(tt["op"]), 200) == flag_txt and 0 in tt["vals"]:
+                            arm0 = tt["targets"][tt["vals"].index(0)]
+                            if cfg.dominates(arm0, x):
+                                oneshot.add(x)
+        moves = moves | oneshot
         outside = set(range(cfg.n)) - set(blocks)
         r = set()
         for y in cfg.succ[h]:
